@@ -606,7 +606,7 @@ class Target:
             orm, andm = data[2:2 + ms], data[2 + ms:2 + 2 * ms]
             new = []
             for k in range(ms):
-                new.append(_and(_or(sym.mem[off + k], orm[k]), andm[k]))
+                new.append(_rmw_byte(sym.mem[off + k], orm[k], andm[k]))
             sym.mem = sym.mem[:off] + new + sym.mem[off + ms:]
             self.writes.append((sym.name, off, new, "rmw"))
             return eip.cip_reply(svc, 0)
@@ -625,3 +625,25 @@ def _or(a, b):
 def _and(a, b):
     x, y = _bits(a), _bits(b)
     return sum((x[i] * y[i]) * (1 << i) for i in range(8))
+
+
+def _rmw_byte(old, orm, andm):
+    """(old | orm) & andm.  With concrete masks the result keeps `old` as a linear term:
+    old + sum_{bits forced to 1} (1 - oldbit)*2^j - sum_{bits forced to 0} oldbit*2^j"""
+    if _concrete(orm) and _concrete(andm):
+        if _concrete(old):
+            return (old | orm) & andm
+        res = old
+        for j in range(8):
+            a, o = (andm >> j) & 1, (orm >> j) & 1
+            if a == 0:
+                res = res - ((old // (1 << j)) % 2) * (1 << j)
+            elif o == 1:
+                res = res + (1 - (old // (1 << j)) % 2) * (1 << j)
+        return res
+    return _and(_or(old, orm), andm)
+
+
+def _concrete(x):
+    # type() of a CrossHair symbolic int reports int; symbolic values carry a .var
+    return type(x) is int and not hasattr(x, "var")
